@@ -11,7 +11,11 @@ pub broadcast axiom fn axiom_from_reflexive_value<T>(v: T)
     ensures #[trigger] <T as vstd::std_specs::convert::FromSpec<T>>::from_spec(v) == v;
 pub broadcast group axiom_from_reflexive { axiom_from_reflexive_obeys, axiom_from_reflexive_value }
 
-pub assume_specification[ String::as_bytes ](s: &String) -> (r: &[u8]);
+/// UTF-8 encoding / decoding as (uninterpreted) functions of the character / byte sequence
+pub uninterp spec fn utf8(s: Seq<char>) -> Seq<u8>;
+pub uninterp spec fn utf8_decode(b: Seq<u8>) -> Seq<char>;
+pub assume_specification[ String::as_bytes ](s: &String) -> (r: &[u8])
+    ensures r@ == utf8(s@);
 
 pub assume_specification[ String::with_capacity ](n: usize) -> (r: String)
     ensures r@ == Seq::<char>::empty();
